@@ -46,6 +46,8 @@ func (d *Dir) Mode() os.FileMode {
 
 // ModTime is modification time
 func (d *Dir) ModTime() time.Time {
+	d.mu.RLock()
+	defer d.mu.RUnlock()
 	return d.time
 }
 
@@ -56,6 +58,8 @@ func (d *Dir) Sys() interface{} {
 
 // Size is length in bytes for regular files; system-dependent for others
 func (d *Dir) Size() int64 {
+	d.mu.RLock()
+	defer d.mu.RUnlock()
 	return int64(len(d.nodes))
 }
 
